@@ -712,10 +712,12 @@ def run_cases(chk, binary, lines, urg=True, mode="fixed"):
     """Run scripts on the implementation, derive histories, replay them in the model.
     Returns list of CaseResult(line, N, tasks, obs, problems, hd_ties, other_ties, model_out, note)."""
     # a pool that livelocks or crashes under one script must not take the whole batch (or half an hour) with it
-    impl = common.run_impl_robust(binary, lines, timeout=240, single_timeout=20, env=FT_ENV, marker="NOLOG")
+    impl = common.run_impl_watch(binary, lines, stall=20, env=FT_ENV, marker="NOLOG")
     res = []
     mlines, midx = [], []
     for line, out in zip(lines, impl):
+        if out.startswith("NOLOG skipped"):
+            continue   # not evaluated: earlier scripts of the batch hung (those are reported)
         r = CaseResult()
         r.line, r.impl = line, out
         r.N, r.tasks = parse_script(line)
